@@ -61,7 +61,10 @@ SupEv == Obs("obs.sup_evt", "S", SupHandle)
 Flag(b) == IF b THEN 1 ELSE 0
 SnapOk ==
   /\ Ev.st = st
-  /\ Ev.name = Flag(reg.name) /\ Ev.pid = Flag(reg.pid) /\ Ev.mem = Flag(reg.mem)
+  /\ Ev.name = Flag(reg.name) /\ Ev.pid = Flag(reg.pid)
+  \* pg::leave_all has schedule points of its own (Pg package): while the exiter is inside it (after
+  \* cleanup.pgmon, before cleanup.pgleave) the membership may already be gone
+  /\ (Ev.mem = Flag(reg.mem) \/ (Ev.mem = 0 /\ \E p \in Procs : sub[p] = "pgleave"))
   /\ Ev.linked = Flag(sup.linked)
   /\ (IF Ev.supsent = -1 THEN TRUE ELSE Ev.supsent = Flag(sup.sent))
   /\ (IF Ev.suphandled = -1 THEN TRUE ELSE Ev.suphandled = Flag(sup.handled))
